@@ -9,6 +9,7 @@ ENGINES = {
     "c12_direct": "hivemon.checks.c12:run_direct",
     "c13_sweep": "hivemon.checks.c13:run_sweep",
     "c14_sweep": "hivemon.checks.c14:run_sweep",
+    "c14_instr": "hivemon.checks.c14:run_instr",
     "c19_split": "hivemon.checks.c19:run_split",
     "c15_diff": "hivemon.checks.c15:run_diff",
     "c16_twice": "hivemon.checks.c16:run_twice",
